@@ -764,7 +764,7 @@ func genBadString(r *rand.Rand, f flavor, o strOpts) litCase {
 
 // Ungrammatical numeric spellings (no token sequence of the lexical grammar forms an expression from them).
 var badNumbers = []struct{ text, kind string }{
-	{"0755", "bad-int-old-octal"}, {"01", "bad-int-leading-zero"}, {"09", "bad-int-leading-zero"}, {"0x", "bad-int-hex-no-digits"},
+	{"00", "bad-int-all-zeros"}, {"000", "bad-int-all-zeros"}, {"0755", "bad-int-old-octal"}, {"01", "bad-int-leading-zero"}, {"09", "bad-int-leading-zero"}, {"0x", "bad-int-hex-no-digits"},
 	{"0X", "bad-int-hex-no-digits"}, {"0xg", "bad-int-hex-no-digits"}, {"0o", "bad-int-octal-no-digits"}, {"0o8", "bad-int-octal-no-digits"},
 	{"0O9", "bad-int-octal-no-digits"}, {"0b", "bad-int-binary-no-digits"}, {"0b2", "bad-int-binary-no-digits"}, {"0B9", "bad-int-binary-no-digits"},
 	{"0o78", "bad-int-octal-bad-digit"}, {"0b12", "bad-int-binary-bad-digit"}, {"0x1g", "bad-int-hex-bad-digit"},
